@@ -163,6 +163,13 @@ fn sx_pt(p: &Polytope, x: &Array1<f64>) -> String {
         Ok(false) => "f".to_string(),
         Err(_) => "panic".to_string(),
     };
+    // the same queries through views must agree with the owned ones
+    let cv = match catch(AssertUnwindSafe(|| p.view().contains(&x.view()))) {
+        Ok(true) => "t".to_string(),
+        Ok(false) => "f".to_string(),
+        Err(_) => "panic".to_string(),
+    };
+    let c = if c == cv { c } else { format!("viewdiff-{}-{}", c, cv) };
     let raw = match catch(AssertUnwindSafe(|| p.distance_raw(x))) {
         Ok(v) => format!("(v {})", sx_vec(&v)),
         Err(_) => "panic".to_string(),
@@ -300,20 +307,22 @@ fn a_b(v: f64) -> String {
     format!("(b {})", fx(v))
 }
 
-fn one_case(r: &mut Rng, id: usize, out: &mut String) {
+fn one_case(r: &mut Rng, id: usize, out: &mut String, big: bool) {
     let op = OPS[id % OPS.len()];
     let mal = r.chance(1, 8);
+    // thorough tier: constructors also in dimensions 5 and 6
+    let cdim = |r: &mut Rng| -> usize { if big && r.chance(1, 3) { 5 + r.below(2) } else { gen_dim(r) } };
     let mut args: Vec<String> = Vec::new();
     let mut extra: Vec<Array1<f64>> = Vec::new();
     let mut near = false;
     let res: Result<Polytope, String> = match op {
         "unbounded" => {
-            let n = gen_dim(r);
+            let n = cdim(r);
             args.push(a_n(n));
             catch(AssertUnwindSafe(|| Polytope::unbounded(n)))
         }
         "empty" => {
-            let n = gen_dim(r);
+            let n = cdim(r);
             args.push(a_n(n));
             catch(AssertUnwindSafe(|| Polytope::empty(n)))
         }
@@ -337,7 +346,7 @@ fn one_case(r: &mut Rng, id: usize, out: &mut String) {
             catch(AssertUnwindSafe(|| Polytope::from_normal(normals.clone(), points.clone())))
         }
         "hypercube" => {
-            let n = gen_dim(r);
+            let n = cdim(r);
             let rad = if r.chance(1, 8) { gen_coef(r, 8) } else { gen_coef(r, 8).abs() + 0.25 };
             args.push(a_n(n));
             args.push(a_q(rad));
@@ -350,7 +359,7 @@ fn one_case(r: &mut Rng, id: usize, out: &mut String) {
             catch(AssertUnwindSafe(|| Polytope::hypercube(n, rad)))
         }
         "hyperrectangle" => {
-            let n = gen_dim(r);
+            let n = cdim(r);
             let mut ivs: Vec<(f64, f64)> = (0..n).map(|_| gen_interval(r, false)).collect();
             if mal && n > 0 {
                 let k = r.below(n);
@@ -369,7 +378,7 @@ fn one_case(r: &mut Rng, id: usize, out: &mut String) {
             catch(AssertUnwindSafe(|| Polytope::hyperrectangle(&ivs)))
         }
         "axis_bounds" => {
-            let n = gen_dim(r);
+            let n = cdim(r);
             let axis = if (mal && r.chance(1, 2)) || n == 0 { n + r.below(2) } else { r.below(n) };
             let (l, u) = gen_interval(r, mal);
             args.push(a_n(n));
@@ -388,7 +397,7 @@ fn one_case(r: &mut Rng, id: usize, out: &mut String) {
             catch(AssertUnwindSafe(|| Polytope::axis_bounds(n, axis, l, u)))
         }
         "simplex" => {
-            let n = gen_dim(r);
+            let n = cdim(r);
             args.push(a_n(n));
             for i in 0..n {
                 let mut v = Array1::zeros(n);
@@ -406,7 +415,7 @@ fn one_case(r: &mut Rng, id: usize, out: &mut String) {
             catch(AssertUnwindSafe(|| Polytope::simplex(n)))
         }
         "cross_polytope" => {
-            let n = gen_dim(r);
+            let n = cdim(r);
             args.push(a_n(n));
             for i in 0..n {
                 let mut v = Array1::zeros(n);
@@ -464,7 +473,11 @@ fn one_case(r: &mut Rng, id: usize, out: &mut String) {
                     extra.push(gen_small_point(r, n) + &d);
                 }
             }
-            catch(AssertUnwindSafe(|| p.translate(&d)))
+            if r.chance(1, 2) {
+                catch(AssertUnwindSafe(|| p.translate(&d)))
+            } else {
+                catch(AssertUnwindSafe(|| p.view().translate(&d)))
+            }
         }
         "apply_pre" => {
             let n = gen_dim(r);
@@ -474,7 +487,11 @@ fn one_case(r: &mut Rng, id: usize, out: &mut String) {
             let f = gen_aff(r, fo, k, 4);
             args.push(sx_poly(&p));
             args.push(sx_aff(&f));
-            catch(AssertUnwindSafe(|| p.apply_pre(&f)))
+            if r.chance(1, 2) {
+                catch(AssertUnwindSafe(|| p.apply_pre(&f)))
+            } else {
+                catch(AssertUnwindSafe(|| p.view().apply_pre(&f.view())))
+            }
         }
         "apply_post" => {
             let n = gen_dim(r);
@@ -500,7 +517,11 @@ fn one_case(r: &mut Rng, id: usize, out: &mut String) {
                     extra.push(m.dot(&x) + &c);
                 }
             }
-            catch(AssertUnwindSafe(|| p.apply_post(&inv, &c)))
+            if r.chance(1, 2) {
+                catch(AssertUnwindSafe(|| p.apply_post(&inv, &c)))
+            } else {
+                catch(AssertUnwindSafe(|| p.view().apply_post(&inv.view(), &c.view())))
+            }
         }
         "rotate" => {
             let n = gen_dim(r);
@@ -522,7 +543,11 @@ fn one_case(r: &mut Rng, id: usize, out: &mut String) {
                     extra.push(rot.dot(&x));
                 }
             }
-            catch(AssertUnwindSafe(|| p.rotate(&rot)))
+            if r.chance(1, 2) {
+                catch(AssertUnwindSafe(|| p.rotate(&rot)))
+            } else {
+                catch(AssertUnwindSafe(|| p.view().rotate(&rot.view())))
+            }
         }
         _ => {
             // "pquery": contains / distance_raw / distance of a given polytope, with near-boundary points
@@ -563,7 +588,7 @@ fn main() {
     let mut out = String::new();
     for id in 0..args.n {
         let mut cr = r.fork();
-        one_case(&mut cr, id, &mut out);
+        one_case(&mut cr, id, &mut out, args.tier == "thorough");
         if out.len() > 1 << 20 {
             print!("{}", out);
             out.clear();
